@@ -638,7 +638,7 @@ fn main() {
                 "C04" => check_sched::check("C04", tier, props_sched::c04_families(tier), &["linearizable", "token-duplicated", "no-panic"], nthreads()),
                 "C05" => {
                     let a = check_seq("C05", tier);
-                    let b = check_sched::check("C05", tier, props_sched::c05_families(tier), &["linearizable", "no-panic", "deadlock", "livelock"], nthreads());
+                    let b = check_sched::check("C05", tier, props_sched::c05_families(tier), &["linearizable", "expired-visible-after-race", "no-panic", "deadlock", "livelock"], nthreads());
                     let t = a.tier.clone();
                     report::merge("C05", &t, vec![("sequential_histories", a), ("expired_item_under_concurrent_collection_all_schedules", b)])
                 }
